@@ -404,10 +404,10 @@ type Clause struct {
 	Kind  string // requires ensures invariant assert assume
 	Match string // for assert/assume: source line substring
 	Loop  int
-	Expr *SExpr
-	Src  string
-	Line int
-	File string
+	Expr  *SExpr
+	Src   string
+	Line  int
+	File  string
 }
 
 type Contract struct {
@@ -428,6 +428,8 @@ type Contract struct {
 	Decreases []*Clause
 	Asserts   []*Clause // assert at "text": expr   /  assume at "text": expr
 	Ghosts    []*GhostVar
+	Holds     map[string]int // lockset: mutex access path -> mode held at entry (1 read, 2 write)
+	Unguarded []string       // lockset: base access paths exempt from guard checks (unpublished objects)
 }
 
 type GhostVar struct {
@@ -454,6 +456,7 @@ type Axiom struct {
 }
 
 type ContractSet struct {
+	Guards map[string]string    // "pkgpath.Type.field" -> guarding mutex field of the same struct
 	Funcs  map[string]*Contract // key pkgpath + "." + Func
 	Specs  map[string]*SpecFunc // key name (global namespace) and pkgpath.name
 	Axioms []*Axiom
@@ -461,7 +464,7 @@ type ContractSet struct {
 }
 
 func newContractSet() *ContractSet {
-	return &ContractSet{Funcs: map[string]*Contract{}, Specs: map[string]*SpecFunc{}}
+	return &ContractSet{Funcs: map[string]*Contract{}, Specs: map[string]*SpecFunc{}, Guards: map[string]string{}}
 }
 
 // loadContractFile parses one file of //@ lines. pkgPath is the import path
@@ -639,7 +642,44 @@ func (cs *ContractSet) loadContractFile(path, pkgPath string) error {
 					cur.Modifies = append(cur.Modifies, m)
 				}
 			}
-		case "pure", "trusted", "inline", "lemma", "noinline", "opaque", "entry", "safety_off", "lockbalance", "calls_havoc":
+		case "guarded":
+			// guarded Type.field[, Type.field2 ...] by mutexField   (file level; Type is of this package)
+			bi := strings.LastIndex(rest, " by ")
+			if bi < 0 {
+				return fail(fmt.Errorf("guarded needs: Type.field by mutexField"))
+			}
+			mu := strings.TrimSpace(rest[bi+4:])
+			for _, tf := range strings.Split(rest[:bi], ",") {
+				tf = strings.TrimSpace(tf)
+				if tf == "" || !strings.Contains(tf, ".") {
+					return fail(fmt.Errorf("guarded needs: Type.field by mutexField"))
+				}
+				cs.Guards[pkgPath+"."+tf] = mu
+			}
+			cur = nil
+		case "holds":
+			// holds path R|W : the caller holds this mutex (lockset contracts)
+			if cur == nil {
+				return fail(fmt.Errorf("holds outside func"))
+			}
+			f := strings.Fields(rest)
+			if len(f) != 2 || (f[1] != "R" && f[1] != "W") {
+				return fail(fmt.Errorf("holds needs: path R|W"))
+			}
+			if cur.Holds == nil {
+				cur.Holds = map[string]int{}
+			}
+			cur.Holds[f[0]] = map[string]int{"R": 1, "W": 2}[f[1]]
+		case "unguarded":
+			if cur == nil {
+				return fail(fmt.Errorf("unguarded outside func"))
+			}
+			for _, u := range strings.Split(rest, ",") {
+				if u = strings.TrimSpace(u); u != "" {
+					cur.Unguarded = append(cur.Unguarded, u)
+				}
+			}
+		case "pure", "trusted", "inline", "lemma", "noinline", "opaque", "entry", "safety_off", "lockbalance", "calls_havoc", "lockset", "noloopframe":
 			if cur == nil {
 				return fail(fmt.Errorf("%s outside func", word))
 			}
